@@ -160,7 +160,7 @@ func runC03(c *CaseCtx) {
 func init() {
 	register(&Check{
 		ID: "C03", Level: "exploration", LeakClass: "paging-handles",
-		NCases: func(t string) int { return tier(t, 150, 3000) },
+		NCases: func(t string) int { return tier(t, 150, 1500) },
 		Run:    runC03,
 		Rule: "case = a generated database state in which 30-60 % of the keys are dead (deleted, or overwritten by a long-expired put; dead runs longer than a B+ tree leaf), in each of the three index modes, optionally reopened; then EXHAUSTIVELY for that state: every prefix of every key plus an absent prefix x offset 0..n+1 x limit in {-1, 1..n+1} for PrefixScan, and 3 regular expressions x limit for PrefixSearchScan (offset 0); " +
 			"each result is compared with take(limit, drop(offset, live keys with the prefix)); non-trivial = >=2 dead keys and >=100 paging calls; distinct by state hash",
